@@ -272,6 +272,16 @@ func (s *SessionState) onLCPDown() {
 	s.ipcp.FSM().Down()
 	s.ipv6cp.FSM().Down()
 
+	// A link that had been authenticated (Network / Open) owns addresses and,
+	// once open, a programmed dataplane session. Those belong to the link
+	// that just ended: the receive path tears the PPPoE session down as soon
+	// as it has released the session lock (see handleSession), instead of
+	// leaving the subscriber forwarding while the new link is unauthenticated
+	// or for ever when the peer never finishes the renegotiation.
+	if s.Phase == ppp.PhaseNetwork || s.Phase == ppp.PhaseOpen {
+		s.linkEnded = true
+	}
+
 	s.Phase = ppp.PhaseEstablish
 }
 
